@@ -104,6 +104,52 @@ def attachMany : List (List Step × Q) → Q → Option Q
   | [], q => some q
   | (p, m) :: rest, q => if validPos p q then (attachAt m p q).bind (attachMany rest) else none
 
+/-! ### what the text format can carry -/
+
+def identOK (x : String) : Bool := x != "(" && x != ")" && atomOf x == Q.var x
+
+def litOK (c : String) : Bool := litText c != "(" && litText c != ")" && atomOf (litText c) == Q.lit c
+
+def specialTy (ty : String) : Bool :=
+  ty == "list" || ty == "dict" || ty == "attr" || ty == "subscript" || ty == "call" || ty == "if" || ty == "lambda"
+
+def symOK2 (tbl : List (String × String)) (op t : String) : Bool :=
+  match symOf tbl op with
+  | some sy => !specialTy sy && sy != "(" && sy != ")" && tag2 sy == some t
+  | none => false
+
+/-- the tag of a node with `n` children survives printing and parsing -/
+def tagWireOK (t : String) (n : Nat) : Bool :=
+  match splitTag t, n with
+  | ("attr", name), 1 =>
+    t == "attr:" ++ name && ("'" ++ name ++ "'") != "(" && ("'" ++ name ++ "'") != ")" &&
+    atomOf ("'" ++ name ++ "'") == Q.lit ("str:'" ++ name ++ "'") && attrOfLit ("str:'" ++ name ++ "'") == some name
+  | ("bin", op), 2 => symOK2 binSym op t
+  | ("cmp", op), 2 => symOK2 cmpSym op t
+  | ("bool", op), 2 => symOK2 boolSym op t
+  | ("un", op), 1 => (match symOf unSym op with
+    | some sy => !specialTy sy && sy != "(" && sy != ")" && tag1 sy == some t
+    | none => false)
+  | ("if", _), 3 => t == "if"
+  | ("tuple", _), _ => t == "tuple"
+  | ("list", _), _ => t == "list"
+  | ("dict", _), _ => t == "dict"
+  | ("sub", _), 2 => t == "sub"
+  | _, _ => false
+
+mutual
+/-- names are identifiers, constants are in the form `repr` gives them, tags and arities are those of Python's AST -/
+def wireOK : Q → Bool
+  | .var x => identOK x
+  | .lit c => litOK c
+  | .lam ps b => ps.all identOK && wireOK b
+  | .app f as => wireOK f && wireOKL as
+  | .node t ks => tagWireOK t ks.length && wireOKL ks
+def wireOKL : List Q → Bool
+  | [] => true
+  | q :: qs => wireOK q && wireOKL qs
+end
+
 /-! ### defect exclusions -/
 
 mutual
